@@ -176,6 +176,9 @@ type SrvCfg struct {
 	Resolved bool
 	VRFs     []string
 	Default  string
+	// InjectElec: the server is a server.NewFake whose election id was seeded with
+	// InjectElectionID before any session exists (an id is known, no session is primary)
+	InjectElec *spb.Uint128
 }
 
 // resolvedRec records resolved-entry notifications with their snapshots.
@@ -207,6 +210,15 @@ func NewSrvH(cfg *SrvCfg) (*SrvH, error) {
 	}
 	if len(cfg.VRFs) > 0 {
 		opts = append(opts, server.WithVRFs(cfg.VRFs))
+	}
+	if cfg.InjectElec != nil {
+		fs, err := server.NewFake(opts...)
+		if err != nil {
+			return nil, err
+		}
+		fs.InjectElectionID(cfg.InjectElec)
+		h.S = fs.Server
+		return h, nil
 	}
 	s, err := server.New(opts...)
 	if err != nil {
